@@ -10,7 +10,10 @@ control states with private tables and emits one shortest history per (state, ev
 Oracle: public reads / final public digest must equal the canonical digests of a pristine child;
 a freshly initialised, untouched private table must serve the public canonical values; id() sets
 of per-atom objects of two tables must be disjoint; `formula(s, table=T)` contains only atoms of
-T and a pickled atom of T is restored into T.
+T and a pickled atom of T is restored into T.  The fresh-interpreter oracle `state_nested` also revises the data
+of a private table R (names, oxidation states, masses, scattering lengths), uses R, and compares everything the
+public table and a second private table serve before and after; every route taking a compound string with
+table=R must compute what it computes from formula(string, table=R).
 """
 from __future__ import annotations
 
@@ -136,7 +139,7 @@ def nested_oracle(run: Run):
     from ..common import REPO, VERIF
     env = dict(os.environ, PYTHONPATH=str(VERIF / "harness"), PYTHONDONTWRITEBYTECODE="1")
     try:
-        p = subprocess.run([sys.executable, "-m", "ptv.state_nested", str(REPO)], capture_output=True, text=True,
+        p = subprocess.run([sys.executable, "-m", "ptv.state_nested", str(REPO), str(run.seed)], capture_output=True, text=True,
                            timeout=600, env=env)
     except subprocess.TimeoutExpired:
         raise InfraError("nested-sharing oracle timed out")
@@ -159,6 +162,15 @@ def nested_oracle(run: Run):
         run.violation(s, dict(oracle="nested", what=s), kind="foreign-atom")
     for s in res.get("restored", [])[:10]:
         run.violation(s, dict(oracle="nested", what=s), kind="pickle-not-restored")
+    run.count(key="nested-oracle-revised", nontrivial=True, tag="nested-oracle",
+              sample="values of the revised private table that differ from its fresh ones: %d" % res.get("revised_effective", 0))
+    for s in res.get("revised_err", [])[:5]:
+        run.violation(s, dict(oracle="nested", what=s, seed=run.seed), kind="private-table-raises")
+    for s in res.get("changed", [])[:10]:
+        run.violation("%s (%d differences)" % (s, res.get("nchanged", 0)), dict(oracle="nested", what=s, seed=run.seed),
+                      kind="other-table-changed")
+    for s in res.get("follows", [])[:10]:
+        run.violation(s, dict(oracle="nested", what=s, seed=run.seed), kind="foreign-atom")
     for s in res.get("differs", [])[:10]:
         run.violation("a freshly initialised private table does not serve the public value (%d differences): %s"
                       % (res.get("ndiffers", 0), s), dict(oracle="nested", what=s), kind="private-differs")
@@ -204,4 +216,14 @@ def run(run: Run) -> int:
 
 def replay(data) -> int:
     from .C09 import replay as r
-    return r(data)
+    nested = [v for v in data.get("violations", []) if v["input"].get("oracle") == "nested"]
+    rest = dict(data, violations=[v for v in data.get("violations", []) if v["input"].get("oracle") != "nested"])
+    rc = r(rest) if rest["violations"] or rest.get("disagreements") else 0
+    if nested:
+        import_repo()
+        rr = Run("C10", "quick", int(nested[0]["input"].get("seed", 0)))
+        nested_oracle(rr)
+        for x in rr.violations[:10]:
+            print("ORACLE  :", x["what"])
+            rc = 1
+    return rc
